@@ -283,7 +283,12 @@ func init() {
 		case "B":
 			x.rvWrite(st, "B", rv, x.rvRead(st, "B", src))
 		default:
-			return nil, false
+			// a source whose kind is not known in this unit: reflect's conversion as an uninterpreted
+			// function of the value and the type (the obligation is that the code delegates to it with
+			// the right operands)
+			cv := Term{"(rvConvertOp " + src.S + " " + typ.S + ")", SInt}
+			st.assume("(= " + rvKindOf(cv).S + " " + k.S + ")")
+			return cv, true
 		}
 		return rv, true
 	}
